@@ -363,9 +363,20 @@ pub fn c14_random(ctx: &Ctx, rng: &mut Rng, seed: u64, quick: bool) -> History {
     let mut have_dir = false;
     for _ in 0..sessions {
         let cpus = cpus_choice(rng);
-        let kind = rng.below(if have_dir { 6 } else { 4 });
-        let kind = if !have_dir && kind == 3 { 5 } else { kind };
+        let kind = rng.below(if have_dir { 7 } else { 5 });
+        let kind = match (have_dir, kind) {
+            (false, 3) => 5,
+            (false, 4) => 6,
+            (_, k) => k,
+        };
         match kind {
+            // the directory holds an index written for other data (other documents): rebuilt in place
+            6 => {
+                steps.push(Step::Fabricate { state: state(true, MetaSpec::OtherHash, IndexSpec::Foreign) });
+                steps.push(Step::Start { session: ctx.session(cpus, vec![], vec![Op::Open { slot: 0, mode: Mode::Disk, plan: random_plan(rng) }, ask(0)]) });
+                label.push(format!("disk-rebuild over other data ({cpus} cpus)"));
+                have_dir = true;
+            }
             // an on-disk start that is killed or fails somewhere; what follows must still agree
             5 => {
                 let faults = random_fault(ctx, rng);
